@@ -1,7 +1,7 @@
 """Generators of TypeSpecs: seeded random (deep, recursive) and bounded-exhaustive (small)."""
 import itertools
 
-from vf.spec import (STD, Ann, AnyT, Coll, EnumT, F, Lit, MapT, NewT, ObjectT, Prim, Ref, Std, SubPrim, T, Tup, Union_, opt, strip)
+from vf.spec import (STD, Ann, AnyT, Coll, EnumT, F, Lit, MapT, NewT, ObjectT, Prim, Ref, Std, SubPrim, T, TVar, Tup, Union_, opt, strip)
 
 PRIMS = ["none", "bool", "int", "float", "str"]
 NUM_CONS = [{"min": 0}, {"max": 10}, {"exc_min": 0}, {"exc_max": 10}, {"mult_of": 3}, {"min": 1, "max": 5}, {"min": 0, "mult_of": 2}]
@@ -216,6 +216,13 @@ class Gen:
             o.class_aliaser = r.choice(["upper", "prefix"])
         if kind == "dataclass" and self.on("frozen", 0.1):
             o.frozen = True
+        if kind == "dataclass" and self.on("generic", 0.1) and not o.frozen and not any(isinstance(n, Ref) for f in o.fields for n in f.t.walk()):
+            # (a forward reference to a generic class names its unspecialised form: recursion is kept out of generic classes)
+            cands = [f for f in o.fields if not f.aggregate and not f.initvar and f.default is None and f.factory is None and not f.undefined
+                     and not any(isinstance(n, Ref) for n in f.t.walk())]
+            for f in r.sample(cands, min(len(cands), r.choice([1, 1, 2]))):
+                tv = TVar(self.fresh("TV"), f.t)
+                f.t = r.choice([tv, tv, Coll("list", tv), opt(tv)]) if not isinstance(strip(f.t), Prim) or strip(f.t).p != "none" else tv
         if kind == "dataclass" and self.on("methods", 0.2):
             for _ in range(r.choice([1, 1, 2])):
                 mk = r.random()
